@@ -468,7 +468,17 @@ func (s *scriptedExec) Run() error {
 	// under r.mu, the lock under which the driver declares the deadline passed: "Timeout" can then not slip in between
 	// a start that was decided before the deadline and its record
 	r.mu.Lock()
-	if s.ctx.Err() != nil {
+	expired := s.ctx.Err() != nil
+	if !expired && r.ctxFired {
+		// "Timeout" has been declared on a sibling context (the deadline has fired there); the cancellation reaches the
+		// children of the run's context one after the other, so this one may be a few hundred nanoseconds behind. If it
+		// carries the run's deadline and the clock is past it, it is expired for every purpose (exec.CommandContext would
+		// kill the process at once). A context WITHOUT that deadline - not derived from the run's - goes on and is judged.
+		if dl, ok := s.ctx.Deadline(); ok && !time.Now().Before(dl) {
+			expired = true
+		}
+	}
+	if expired {
 		// like exec.CommandContext: an expired context refuses to start the process
 		if !r.ctxFired {
 			r.ctxFired = true
@@ -480,7 +490,10 @@ func (s *scriptedExec) Run() error {
 		} else {
 			r.emit(Ev{"ev": "ExecRefused", "s": stepIndex(s.name)})
 		}
-		return s.ctx.Err()
+		if err := s.ctx.Err(); err != nil {
+			return err
+		}
+		return context.DeadlineExceeded
 	}
 	if s.prevented {
 		r.mu.Unlock()
